@@ -208,7 +208,11 @@ def c15(res, tier, seed):
 
 
 C13_QUICK = ["c13_t14_k01", "c13_t14_k02", "c13_t14_k04", "c13_t14_k05", "c13_t14_k06", "c13_t14_k08", "c13_t12_k01", "c13_t12_k04", "c13_t12_k08"]
-C13_LONG = ["c13_t24b", "c13_t14_k12", "c13_t14_k16", "c13_t14_k20", "c13_t12_k20", "c13_t24a", "c13_t19", "c13_t21", "c13_t05", "c13_t05_trunc"]
+# the real decoder on 20-character fields (c13_t24a/t19/t21/t05, k16/k20 in std, 24 B's three fields together) exhausts 30 GB or 45 min in
+# CBMC (measured again in the last thorough run: ERROR / TIMEOUT): those harnesses stay in the crate but are no longer part of a tier;
+# the fixed-width fields are covered by the decoder at k <= 12 (all 64^k strings) + the transparent-decoder wiring harnesses c13r_*
+C13_LONG = ["c13_t14_k12"]
+C13_WIRED = ["c13r_t24a", "c13r_t24b", "c13r_t19", "c13r_t21", "c13r_t05", "c13r_t05_trunc"]
 
 
 C13_RANGE = ["c13w_t12_n126", "c13w_t12_n125", "c13w_t12_n124", "c13w_t12_n066", "c13w_t12_n024", "c13w_t12_n025",
@@ -226,13 +230,18 @@ def c13(res, tier, seed):
             jobs += K(h, ("none",), timeout=900)
         for h in C13_RANGE:
             jobs += K(h, ("std", "none"), timeout=600)
+        for h in ("c13r_t24a", "c13r_t24b"):
+            jobs += K(h, ("std",), timeout=1200)
     else:
         for h in C13_QUICK:
             jobs += K(h, ALL, timeout=1800)
         for h in C13_LONG:
             jobs += K(h, ("std", "none"), timeout=2700, mem_gb=30)
+        jobs += K("c13_t14_k16", ("none",), timeout=2700, mem_gb=30)
         for h in C13_RANGE:
             jobs += K(h, ALL, timeout=900)
+        for h in C13_WIRED:
+            jobs += K(h, ("std", "none"), timeout=2700, mem_gb=20)
     run_kani_jobs(res, jobs)
     res.assumptions += ["range wiring of the variable-length texts (c13w_*): the decoder parse_6bit_ascii is replaced by len_text_stub (same "
                         "end-of-input and capacity rules, one non-padding character per character of the requested range), the payload is all "
@@ -241,13 +250,15 @@ def c13(res, tier, seed):
                         "around the 20-character capacity; type 5 at 37, 38, 40, 41, 43, 46, 49, 52, 53, 55 bytes (truncated destination); "
                         "decoder (c13_*) and range wiring (c13w_*) together give the text of long fields, other lengths are outside the claim"]
     res.assumptions += ["stub core::str::from_utf8 -> ASCII-asserting stub (its assertion is the 'always valid ASCII' clause)",
-                        "quick: safety texts (types 12, 14) of 1..8 characters; thorough adds type 24 B (3/4/7 characters), the 20-character "
-                        "fields (24 A, 19, 21, 5 incl. a truncated destination) and safety texts up to 20 characters (a harness that exceeds its "
-                        "time / memory cap makes the thorough run inconclusive); longer safety texts "
-                        "(spec maximum 156/161) are outside the bound"]
+                        "real decoder: safety texts (types 12, 14) of 1..8 characters quick, 12 (16 in the no-allocator build) thorough, all 64^k strings, "
+                        "all other payload bits symbolic; the real decoder on the 20-character fields exceeds 30 GB / 45 min in CBMC and is not run",
+                        "fixed-width fields (24 A name, 24 B vendor / model / call sign, 19 and 21 names, 5 call sign / name / destination incl. a "
+                        "9-character truncation): harnesses c13r_* with the decoder replaced by raw_text_stub (character i = 0x21 + 6-bit value i of the "
+                        "requested range; natively the real decoder runs and is compared with the reference decode + trim): which bits reach the "
+                        "decoder, whole payload symbolic; quick runs the two type-24 harnesses, thorough all six"]
     return {"functions_encoded": ["parsers::parse_6bit_ascii, sixbit_to_ascii, nom::multi::count / nom_noalloc::count, str::trim_start/trim_end_matches/trim_end",
                                   "the carrying message parsers"],
-            "bounds": {"characters": "<= 8 quick, <= 20 thorough; all 64^k strings, all other payload bits symbolic", "unwind": "k+2"},
+            "bounds": {"characters": "real decoder: <= 8 quick, <= 12 (16 no-alloc) thorough, all 64^k strings, all other payload bits symbolic; range / wiring harnesses: 20-character fields and texts up to the 1008-bit maximum", "unwind": "k+2"},
             "technique": "Kani/CBMC: decoded string == reference 6-bit table + three explicit trim loops, byte for byte",
             "trusted": KANI_TRUSTED}
 
@@ -299,6 +310,7 @@ def c01(res, tier, seed):
         # that hand-over contract is discharged here as well, so that the decomposition of this property is closed
         mt.q_handover_for_totality(cx)
         mt.run_queries(cx, timeout_s=300 if tier == "quick" else 1200)
+    mt_gap_no_panic(res, ("std", "none") if tier == "quick" else ALL, seed)
     res.assumptions += ["payload layer: per message type the exact specification length (quick) and a symbolic length 0..=spec max + 2 bytes (thorough; "
                         "quick for the cheap types), all bits symbolic including the type bits", SKIPTEXT_NOTE +
                         "; the real text decoder is run on safety texts of 4 and 21 characters (21 > the no-allocator capacity)",
@@ -306,7 +318,8 @@ def c01(res, tier, seed):
                         "the dispatcher messages::parse is not run under Kani (21-variant result type, > 19 min); its own control flow is covered by C09's MIR query",
                         "state layer (engine M): every MIR assert (overflow checks) and unreachable terminator of AisParser::parse and its callees, from an arbitrary parser state",
                         "text layer (engine M): panics inside nom / core (slice indexing in hex_u32, u8::from_str) are not visible to the semantics table; "
-                        "lines of at most %d bytes; termination: every encoded body is loop-free and the table's scans are bounded by the line length" % MT_N[tier],
+                        "lines of at most %d bytes, every byte symbolic; plus (panic edges only) lines of 24 symbolic bytes with a run of up to 60000 copies of one "
+                        "payload character inserted anywhere; termination: every encoded body is loop-free and the table's scans are bounded by the line length" % MT_N[tier],
                         "decode in {true,false}: symbolic in the state layer; the payload layer is what decode=true adds"]
     meta = mt_meta(tier)
     meta["functions_encoded"] = PAYLOAD_FN + ["messages::unarmor", "nom_noalloc::count / many_m_n (no-alloc)"] + meta["functions_encoded"]
@@ -484,10 +497,34 @@ MT_TRUSTED = ["nom semantics table lib/mir/textlayer.py (take, tag, take_until, 
 MT_N = {"quick": 32, "thorough": 48}
 
 
-def mt_setup(res, cfgs, tier, seed):
+def mt_gap_no_panic(res, cfgs, seed, N=24, timeout_s=600):
+    """the sentence parser on lines far longer than the fully symbolic bound: N symbolic bytes with a run of up to 60000 copies of one
+    payload character inserted at a symbolic position (16-bit positions) - no panic edge is reachable.  (The grammar / checksum
+    miters do not finish on this model within 25 min and are not claimed on it.)"""
+    import mt, msq
+    from mir import textlayer as T
+    for c in cfgs:
+        with T.width(16):
+            try:
+                base = msq.relation(c)
+                rel = mt.build(c, N, mir_path=base.mir_path, line=T.GapLine(N))
+            except Exception as e:
+                res.inconclusive.append("engine M could not encode the sentence parser on the long-line model [%s]: %s" % (c, str(e)[:400]))
+                continue
+            ref = mt.Ref(rel.line)
+            res.extra.setdefault("text_layer_long_lines", {})[c] = dict(rel.stats, model="N=%d symbolic bytes + a run of <= 60000 copies of one payload character" % N)
+            res.states += rel.stats["blocks_executed"]
+            res.transitions += rel.stats["paths"]
+            mt.translator_validation(res, rel, ref, seed)
+            cx = mt.Ctx(res, rel, ref)
+            mt.q_no_panic(cx)
+            mt.run_queries(cx, timeout_s=timeout_s)
+
+
+def mt_setup(res, cfgs, tier, seed, N=None):
     import mt, msq
     out = []
-    N = MT_N[tier]
+    N = N or MT_N[tier]
     for c in cfgs:
         try:
             base = msq.relation(c)
@@ -512,11 +549,19 @@ def mt_meta(tier):
             "trusted": M_TRUSTED + MT_TRUSTED}
 
 
+MT_N_NMEA = 82          # the NMEA 0183 maximum sentence length: thorough tier of the two text-centric properties (C02, C08), std
+
+
 def c02(res, tier, seed):
     mt, cxs = mt_setup(res, ("std",) if tier == "quick" else ALL, tier, seed)
     for cx in cxs:
         mt.q_gate(cx)
         mt.run_queries(cx, timeout_s=500 if tier == "quick" else 2400)
+    if tier == "thorough":
+        mt, cxs = mt_setup(res, ("std",), tier, seed, N=MT_N_NMEA)
+        for cx in cxs:
+            mt.q_gate(cx)
+            mt.run_queries(cx, timeout_s=4500)
     msq, ql, rels = m_setup(res, ("std", "none") if tier == "quick" else ALL, seed)
     for c, rel in rels.items():
         msq.q_checksum_gate(res, rel, ql)
@@ -526,6 +571,8 @@ def c02(res, tier, seed):
     res.assumptions += ["text layer: lines of at most N bytes (see bounds); the S-layer queries cover any parser state",
                         "XOR fold + comparison (Kani, hook AisParser::verif_check_checksum): checksummed ranges of up to %d bytes, all contents" % 400]
     meta = mt_meta(tier)
+    if tier == "thorough":
+        meta["bounds"]["line_bytes_std"] = "additionally every byte string of length 0..=%d (the NMEA 0183 maximum sentence length) in the std build" % MT_N_NMEA
     meta["trusted"] = KANI_TRUSTED + meta["trusted"]
     return meta
 
@@ -537,8 +584,17 @@ def c08(res, tier, seed):
         mt.q_postconditions(cx)
         mt.q_no_panic(cx)
         mt.run_queries(cx, timeout_s=500 if tier == "quick" else 2400)
+    if tier == "thorough":
+        mt, cxs = mt_setup(res, ("std",), tier, seed, N=MT_N_NMEA)
+        for cx in cxs:
+            mt.q_shapes(cx)
+            mt.q_postconditions(cx)
+            mt.run_queries(cx, timeout_s=4500)
     res.assumptions += ["lines with a '*' inside the address / channel / payload fields are judged by C02 (first-'*' rule), C08's two queries are neutral on them"]
-    return mt_meta(tier)
+    meta = mt_meta(tier)
+    if tier == "thorough":
+        meta["bounds"]["line_bytes_std"] = "additionally every byte string of length 0..=%d (the NMEA 0183 maximum sentence length) in the std build" % MT_N_NMEA
+    return meta
 
 
 def c07(res, tier, seed):
